@@ -727,7 +727,6 @@ fn load_known(verif_dir: &Path) -> Vec<KnownFinding> {
 /// f64 transported as bit pattern in replay files would be unreadable; serde_json round-trips
 /// finite f64 exactly (shortest representation), and non-finite values are encoded by the case
 /// structs that need them (see `tools::num::F`).
-use proptest::prelude::*;
 
 pub fn log_uniform(lo: f64, hi: f64) -> BoxedStrategy<f64> {
     assert!(lo > 0.0 && hi > lo);
